@@ -126,10 +126,15 @@ def gen_chord_pair(rng, shape):
 
 
 def gen_melody(rng, shape):
+    """uniform time bases; cents on a lattice.  When the estimate has its own time base it is linearly
+    interpolated onto the reference's, so the lattice is then multiples of 200 cents (midpoints are
+    multiples of 100: no interpolated pitch difference can sit on a tolerance threshold)."""
     hop = 1.0 / 64
     n = rng.randint(3, 14)
     t = np.arange(n) * hop
-    cents = [rng.choice([0, 20, 60, 1200, 1220, 700]) for _ in range(n)]
+    own_tb = shape == "disjoint" or (shape == "random" and rng.random() < 0.3)
+    lat = [0, 200, 400, 1200, 1400, 800] if own_tb else [0, 20, 60, 1200, 1220, 700]
+    cents = [rng.choice(lat) for _ in range(n)]
     ref = np.array([0.0 if rng.random() < 0.25 else 110.0 * 2 ** (c / 1200.0) for c in cents])
     if shape in ("empty_ref", "both_empty"):
         ref = np.zeros(n)                      # no voiced frame in the reference
@@ -141,11 +146,10 @@ def gen_melody(rng, shape):
     if shape in ("empty_est", "both_empty"):
         est = np.zeros(n)
     te = t.copy()
-    if shape == "disjoint" or (shape == "random" and rng.random() < 0.3):
+    if own_tb:
         m = rng.randint(2, 16)                 # a different (still uniform) time base
         te = np.arange(m) * hop * 2
-        est = np.array([0.0 if rng.random() < 0.2 else 110.0 * 2 ** (rng.choice([0, 20, 700, 1200]) / 1200.0)
-                        for _ in range(m)])
+        est = np.array([0.0 if rng.random() < 0.2 else 110.0 * 2 ** (rng.choice(lat) / 1200.0) for _ in range(m)])
     if shape == "single":
         return t[:2], ref[:2], te[:2], est[:2]
     return t, ref, te, est
